@@ -62,6 +62,11 @@ def abs_time(t0, delta):
     return t + (delta - whole)
 
 
+def DYN(name):
+    """An equal but not identical (not interned) copy of a string, as read from a file."""
+    return ''.join(list(name))
+
+
 def run_case(case, ctx):
     import edzed
     hist = core.History()
@@ -117,6 +122,13 @@ def run_case(case, ctx):
             repeats.extend(autos + [r2])
         else:
             raise core.Inconclusive(f"unknown structure {structure}")
+        if case.get('cleanup_event') and 'entry' in objs:
+            # an event that reaches the Repeat during the clean-up, after the Repeat itself was
+            # stopped (blocks with asynchronous clean-up are stopped first): the result of an
+            # output block's stop_data.  Forwarded once, never repeated.
+            edzed.OutputFunc('ofc', func=lambda v: v, stop_data={'value': 'final'},
+                             on_success=edzed.Event(objs['entry'], DYN('put')), on_error=None)
+            ctx.count('cleanup_events')
         # boundary recorder on every Repeat block (record and delegate)
         for r in repeats:
             orig = r.event
@@ -143,12 +155,12 @@ def run_case(case, ctx):
                     if 'src' in objs:
                         edzed.ExtEvent(objs['src']).send(f"v{n}")
                     else:
-                        edzed.ExtEvent(objs['entry'], 'put', source=f"app{n}").send(
+                        edzed.ExtEvent(objs['entry'], DYN('put'), source=f"app{n}").send(
                             f"v{n}", uid=n, extra=('x', n))
                 elif kind == 'nosrc' and 'src' not in objs:
                     # a direct event() call: the optional 'source' item is missing
                     ctx.count('events_without_source')
-                    objs['entry'].event('put', value=f"v{n}", uid=n)
+                    objs['entry'].event(DYN('put'), value=f"v{n}", uid=n)
                 elif kind == 'nosrc':
                     edzed.ExtEvent(objs['src']).send(f"v{n}")
                 elif kind == 'same':
@@ -430,6 +442,8 @@ def gen(ctx):
             case['stopmode'] = 'double'
         if structure == 'implicit' and rng.random() < 0.4:
             case['strip_source'] = True
+        if structure in ('explicit', 'byname', 'chain') and rng.random() < 0.3:
+            case['cleanup_event'] = True
         yield case, False
 
 
